@@ -260,14 +260,19 @@ PROPS['C06'] = dict(
 )
 
 
-def vac_paths(kind_needed=None):
+def vac_paths(*needed):
+    """vacuity witness: the families must have reached the situations the oracle is about (counted from the traces
+    of all explored paths): e.g. 'dtor' = some destructor ran, 'multi_destroy_ops' = some operation destroyed a whole group"""
     def f(results, extra):
         tot = sum(r['paths'] for r in results)
         if tot == 0:
             return 'no path explored'
-        dt = sum(1 for r in results if r.get('sample'))
-        if dt == 0:
+        if sum(1 for r in results if r.get('sample')) == 0:
             return 'no path completed'
+        reached = extra.get('reached', {})
+        for k in needed:
+            if reached.get(k, 0) == 0:
+                return 'no explored path reached "%s"' % k
         return None
     return f
 
@@ -287,23 +292,24 @@ def items_C01(tier, seed, P):
     return graph_items('C01', tier, seed, {'C01'}, opts=o) + mult_items('C01', tier, seed, {'C01'}, opts=o) + history_items('C01', tier, seed, {'C01'}, opts=o)
 
 
-PROPS['C01'] = dict(items=items_C01, bounds=BOUNDS_GRAPH, outside=OUTSIDE, vacuity=vac_paths(), replay_oracles=['C01'])
+PROPS['C01'] = dict(items=items_C01, bounds=BOUNDS_GRAPH, outside=OUTSIDE, vacuity=vac_paths('dtor', 'multi_destroy_ops'), replay_oracles=['C01'])
 
 
 def items_C02(tier, seed, P):
     o = {'panics_ok': True}
     return (graph_items('C02', tier, seed, {'C02'}, opts=o, wextras=True, noop=True) + mult_items('C02', tier, seed, {'C02'}, opts=o, wextras=True)
-            + history_items('C02', tier, seed, {'C02'}, opts=o))
+            + history_items('C02', tier, seed, {'C02'}, opts=o) + weak_graph_items('C02', tier, seed, {'C02'}, opts=o, dtor_upgrades=False)
+            + weak_graph_items('C02', tier, seed, {'C02'}, opts=o, dtor_upgrades=False, one_weak=True))
 
 
-PROPS['C02'] = dict(items=items_C02, bounds=BOUNDS_GRAPH, outside=OUTSIDE, vacuity=vac_paths(), replay_oracles=['C02'])
+PROPS['C02'] = dict(items=items_C02, bounds=BOUNDS_GRAPH, outside=OUTSIDE, vacuity=vac_paths('dtor', 'multi_destroy_ops'), replay_oracles=['C02'])
 
 
 def items_C03(tier, seed, P):
     return graph_items('C03', tier, seed, {'C03'}, recorded_only=False) + mult_items('C03', tier, seed, {'C03'}) + history_items('C03', tier, seed, {'C03'})
 
 
-PROPS['C03'] = dict(items=items_C03, bounds=BOUNDS_GRAPH, outside=OUTSIDE, vacuity=vac_paths(), replay_oracles=['C03'])
+PROPS['C03'] = dict(items=items_C03, bounds=BOUNDS_GRAPH, outside=OUTSIDE, vacuity=vac_paths('dtor', 'multi_destroy_ops'), replay_oracles=['C03'])
 
 
 def items_C08(tier, seed, P):
@@ -311,7 +317,7 @@ def items_C08(tier, seed, P):
     return graph_items('C08', tier, seed, {'C08'}, opts=o, noop=True) + mult_items('C08', tier, seed, {'C08'}, opts=o) + history_items('C08', tier, seed, {'C08'}, opts=o)
 
 
-PROPS['C08'] = dict(items=items_C08, bounds=BOUNDS_GRAPH, outside=OUTSIDE, vacuity=vac_paths(), replay_oracles=['C08'])
+PROPS['C08'] = dict(items=items_C08, bounds=BOUNDS_GRAPH, outside=OUTSIDE, vacuity=vac_paths('dtor', 'multi_destroy_ops'), replay_oracles=['C08'])
 
 
 # ------------------------------------------------------------------ unit lemmas (counter generalisation, sentinels)
@@ -392,11 +398,11 @@ def lemma_items(prop, which):
 
 
 # ------------------------------------------------------------------ C05
-def weak_graph_items(prop, tier, seed, oracles, opts=None, end_all=False, dtor_upgrades=True):
+def weak_graph_items(prop, tier, seed, oracles, opts=None, end_all=False, dtor_upgrades=True, one_weak=False):
     items = []
 
-    def add(n, edges, name, layouts, weak_edges):
-        base = F.build_ops(n, edges, extras=not end_all, wextras=True, weak_edges=weak_edges)
+    def add(n, edges, name, layouts, weak_edges, observers=True):
+        base = F.build_ops(n, edges, extras=not end_all, wextras=observers, weak_edges=weak_edges)
         keep = []
         if dtor_upgrades:
             # every destructor upgrades / inspects every Weak its value holds
@@ -410,17 +416,19 @@ def weak_graph_items(prop, tier, seed, oracles, opts=None, end_all=False, dtor_u
                     keep.append('kp_%d_%d' % (i, k))
                 base.append({'op': 'on_drop', 'obj': i, 'do': do})
         for i in range(n):
-            base.append({'op': 'downgrade', 'h': H(i), 'as': 'ow%d' % i})
+            if observers:
+                base.append({'op': 'downgrade', 'h': H(i), 'as': 'ow%d' % i})
         for seq in F.drop_sequences(n, n):
             ops = list(base)
             for (k, i) in seq:
                 ops += F.drop_ops([(k, i)])
                 for j in range(n):
-                    ops += [{'op': 'upgrade', 'w': 'ow%d' % j}, {'op': 'w_strong_count', 'w': 'ow%d' % j}, {'op': 'w_weak_count', 'w': 'ow%d' % j}]
+                    if observers:
+                        ops += [{'op': 'upgrade', 'w': 'ow%d' % j}, {'op': 'w_strong_count', 'w': 'ow%d' % j}, {'op': 'w_weak_count', 'w': 'ow%d' % j}]
                 # handles that destructors obtained through upgrade are released only now
                 for nm in keep:
                     ops.append({'op': 'drop_if', 'h': nm})
-            if end_all:
+            if end_all and observers:
                 for j in range(n):
                     ops += [{'op': 'wdrop', 'w': 'ow%d' % j}]
                 for j in range(n):
@@ -443,6 +451,11 @@ def weak_graph_items(prop, tier, seed, oracles, opts=None, end_all=False, dtor_u
     for (n, e, nm) in shapes:
         lays = std_layouts(n, tier, seed)[:3 if tier == 'quick' else 6]
         allw = [(i, j) for i in range(n) for j in range(n)]
+        if one_weak:
+            # exactly one value holds one Weak (to a peer, or to itself), and no observer Weak exists outside
+            for (i, j) in [(0, (1 % n)), (0, 0)] + ([(1, 0)] if n > 1 else []):
+                add(n, e, nm, lays[:2], [(i, j)], observers=False)
+            continue
         add(n, e, nm, lays, allw)          # every value holds a Weak to every object (itself included)
         if tier != 'quick':
             add(n, e, nm, lays, [])
@@ -478,14 +491,14 @@ def items_C05(tier, seed, P):
             + lemma_items('C05', ['downgrade', 'weakdrop']))
 
 
-PROPS['C05'] = dict(items=items_C05, bounds=BOUNDS_GRAPH, outside=OUTSIDE, vacuity=vac_paths(), replay_oracles=['C05'])
+PROPS['C05'] = dict(items=items_C05, bounds=BOUNDS_GRAPH, outside=OUTSIDE, vacuity=vac_paths('dtor', 'multi_destroy_ops', 'upgrade:some', 'upgrade:none', 'try_unwrap:ok', 'make_mut:moved'), replay_oracles=['C05'])
 
 
 def items_C04(tier, seed, P):
     return weak_graph_items('C04', tier, seed, {'C04'}, opts={'expect_all_freed': True}, end_all=True) + lemma_items('C04', ['weakdrop'])
 
 
-PROPS['C04'] = dict(items=items_C04, bounds=BOUNDS_GRAPH, outside=OUTSIDE, vacuity=vac_paths(), replay_oracles=['C04'],
+PROPS['C04'] = dict(items=items_C04, bounds=BOUNDS_GRAPH, outside=OUTSIDE, vacuity=vac_paths('dtor', 'multi_destroy_ops'), replay_oracles=['C04'],
                     assumptions=['histories end with every program handle dropped: strong extras are fixed to 0 in this family; the w_j additional Weak handles are symbolic and dropped through the weak-drop generalisation lemma'])
 
 
@@ -586,9 +599,7 @@ def items_C10(tier, seed, P):
 
 
 def vac_dtor(results, extra):
-    if not any(r.get('sample') for r in results):
-        return 'no path completed'
-    return None
+    return vac_paths('dtor', 'multi_destroy_ops', 'upgrade:some', 'upgrade:none', 'strong_count')(results, extra)
 
 
 PROPS['C10'] = dict(items=items_C10, bounds={'quick': {'shapes': 'plain object, unrecorded chain, owner/target, self-clone, ring2, ring2+tail; plus bystander B (symbolic extras) and a second group {P,Q}', 'positions': 'each member destructor of each shape', 'actions': 'one of: clone, clone+drop, drop (possibly last), downgrade+upgrade, adopt, unadopt, drop of the last handle of group {P,Q} (nested collection), counts/deref; every acting destructor also upgrades a Weak to a dying peer', 'layouts': 2},
@@ -657,9 +668,7 @@ def vac_C11(results, extra):
         s = r.get('sample')
         if s and any(t[0] == 'ret' and t[1] == 'catch' and t[2] == 'panicked' for t in s['trace'] if len(t) > 2):
             n += 1
-    if not any(r.get('sample') for r in results):
-        return 'no path completed'
-    return None
+    return vac_paths('dtor', 'multi_destroy_ops', 'catch:panicked', 'catch:ok', 'upgrade:none')(results, extra)
 
 
 PROPS['C11'] = dict(items=items_C11, bounds={'quick': {'shapes': 'plain, unrecorded chain, owner/target, self-clone, ring2, named N=3 shapes', 'fault': 'the destructor of member k panics (every k), one panic per history', 'orders': '3 drop orders', 'layouts': 3},
@@ -704,7 +713,7 @@ def items_C13(tier, seed, P):
 
 PROPS['C13'] = dict(items=items_C13, bounds={'quick': {'shapes': 'all fully recorded shapes N<=2 (held<=1), named N=3 shapes', 'history': 'one recorded handle is taken out of its owner without unadopt and then kept by the program or dropped; then every order of dropping the named handles; Deref of the kept handle after each step', 'counters': 'symbolic extras', 'layouts': 2},
                                              'thorough': {'shapes': 'held<=2', 'layouts': 5}},
-                    outside=OUTSIDE, vacuity=vac_paths(), replay_oracles=['C13'])
+                    outside=OUTSIDE, vacuity=vac_paths('dtor', 'deref'), replay_oracles=['C13'])
 
 
 # ------------------------------------------------------------------ C12 handle-consuming APIs
@@ -749,7 +758,7 @@ def items_C12(tier, seed, P):
 
 PROPS['C12'] = dict(items=items_C12, bounds={'quick': {'shapes': 'owner/target, ring2, self-clone, chain3, ring3, ring2+tail', 'calls': 'try_unwrap (with/without Weak), make_mut (with/without Weak), get_mut, into_raw/from_raw, increment/decrement_strong_count on every object, optionally after dropping a neighbour; then the remaining handles are dropped in 2 orders', 'counters': 'concrete (the APIs branch on strong==1 / weak==0: every branch is reached structurally)'},
                                              'thorough': {'orders': 'all drop orders', 'layouts': 4}},
-                    outside=OUTSIDE, vacuity=vac_paths(), replay_oracles=['C12', 'C08', 'C04'])
+                    outside=OUTSIDE, vacuity=vac_paths('dtor', 'try_unwrap:ok', 'try_unwrap:err', 'make_mut:cloned', 'make_mut:moved', 'make_mut:inplace', 'get_mut:some', 'get_mut:none'), replay_oracles=['C12', 'C08', 'C04'])
 
 
 # ------------------------------------------------------------------ C14 pay-as-you-go
@@ -795,7 +804,7 @@ def items_C14(tier, seed, P):
 
 PROPS['C14'] = dict(items=items_C14, bounds={'quick': {'states': 'never adopted; adopted 1..2 times and fully unadopted (also one unadopt too many), as owner and as target; unadopted object stored inside an adopted ring; self adoption (clone / same handle) then unadopt', 'calls': 'clone, drop of the clone, drop of the named handle (may be the last)', 'counters': 'extras e_j, w_j symbolic 64-bit', 'events': 'calls of cycle_refs / orphaned_cycle and allocation events (Global.allocate, Box, Vec growth, first insertion into a table) in the frames of the call under test; nested drops of handles stored in a destroyed value are excluded'},
                                              'thorough': {'states': 'adopted up to 3 times'}},
-                    outside=OUTSIDE, vacuity=vac_paths(), replay_oracles=['C14'])
+                    outside=OUTSIDE, vacuity=vac_paths('cost', 'dtor'), replay_oracles=['C14'])
 
 
 # ------------------------------------------------------------------ C15 iterative and linear
@@ -809,6 +818,8 @@ def items_C15(tier, seed, P):
         ex['rc_depth'] = max(ex['rc_depth'], E.max_rc_drop_depth)
         tr = E.call_counts.get('cycle_refs', 0)
         ex['traces'] = max(ex['traces'], tr)
+        ex['work'] = max(ex.get('work', 0), E.work)
+        ex['stmts'] = max(ex.get('stmts', 0), E.nstmts)
         if tr:
             ex['expansions_per_trace'] = max(ex.get('expansions_per_trace', 0), E.summary_counts.get('HashSet::insert', 0) / tr)
             ex['pops_per_trace'] = max(ex.get('pops_per_trace', 0), E.summary_counts.get('Vec::pop', 0) / tr)
@@ -822,6 +833,9 @@ def items_C15(tier, seed, P):
         if n >= 3:
             fams.setdefault('ring+chord', []).append((n, [R(i, (i + 1) % n) for i in range(n)] + [R(0, 2)]))
         fams.setdefault('ring+selfclone', []).append((n, [R(i, (i + 1) % n) for i in range(n)] + [(0, 0, True, False)]))
+        if n >= 2:
+            # hub: object 0 adopts every other object and is adopted back (long work list)
+            fams.setdefault('hub', []).append((n, [R(0, i) for i in range(1, n)] + [R(i, 0) for i in range(1, n)]))
     for fam, lst in fams.items():
         for (n, e) in lst:
             ops = F.build_ops(n, e, extras=False) + F.drop_ops([('h', i) for i in range(n)])
@@ -844,7 +858,25 @@ def finish_C15(tier, seed, P, native, results, scratch):
     for f, d in fam.items():
         ns = sorted(d)
         table[f] = {n: dict(rc_drop_depth=d[n]['rc_depth'], frame_depth=d[n]['max_depth'], expansions_per_trace=d[n].get('expansions_per_trace', 0),
-                            pops_per_trace=d[n].get('pops_per_trace', 0)) for n in ns}
+                            pops_per_trace=d[n].get('pops_per_trace', 0), work=d[n].get('work', 0), mir_statements=d[n].get('stmts', 0)) for n in ns}
+        # linear time: container work units (element moves, pushes, pops, iterator steps) and executed MIR statements per
+        # (object + adoption) must not grow with N
+        sizes = {}
+        for (nn, ee) in [(int(r_['name'].split('N=')[1]), r_) for r_ in results if r_['name'].startswith(f + ' N=')]:
+            pass
+        def per_unit(n, key):
+            edges = {'ring': n, 'clique': n * (n - 1), 'ring+chord': n + 1, 'ring+selfclone': n + 1, 'hub': 2 * (n - 1)}.get(f, n)
+            return d[n].get(key, 0) / float(n + edges) / max(1, d[n].get('traces', 1))
+        big = [n for n in ns if n >= 3]
+        if len(big) >= 2:
+            a, b = big[0], big[-1]
+            for key in ('work', 'stmts'):
+                ra, rb = per_unit(a, key), per_unit(b, key)
+                if ra > 0 and rb > 1.5 * ra:
+                    viol.append(dict(prop='C15', clause='work-grows', name='%s N=%d' % (f, b), model={}, layout=None, tags=[f],
+                                     detail='%s per (object+adoption) grows with the size of the group: %s N=%d: %.1f, N=%d: %.1f (superlinear trace/teardown)'
+                                     % ('container work units' if key == 'work' else 'executed MIR statements', f, a, ra, b, rb),
+                                     script={'ops': []}, stack=[], trace=[], subject=None, rec_same={}, opts=None, scale_family=f))
         big = [n for n in ns if n >= 2]
         for a, b in zip(big, big[1:]):
             if d[b]['rc_depth'] > d[a]['rc_depth'] or d[b]['max_depth'] > d[a]['max_depth']:
@@ -866,7 +898,28 @@ def finish_C15(tier, seed, P, native, results, scratch):
             scale[n] = dict(rc=pr.returncode, destroyed=int(m.group(2)) if m else None, ms=int(m.group(3)) if m else None)
         except subprocess.TimeoutExpired:
             scale[n] = dict(rc='timeout', destroyed=None, ms=None)
+    hub = {}
+    for n in (40000, 80000):
+        best = None
+        for rep in range(3):      # best of three: timing noise only ever makes a run slower
+            try:
+                pr = subprocess.run([native.bin, '--hub', str(n), '128'], capture_output=True, text=True, timeout=600)
+                m = re.search(r'hub ok n=(\d+) destroyed=(\d+) ms=(\d+)', pr.stdout)
+                cur = dict(rc=pr.returncode, destroyed=int(m.group(2)) if m else None, ms=int(m.group(3)) if m else None)
+            except subprocess.TimeoutExpired:
+                cur = dict(rc='timeout', destroyed=None, ms=None)
+            if best is None or (cur['ms'] is not None and (best['ms'] is None or cur['ms'] < best['ms'])):
+                best = cur
+            if cur['ms'] is None:
+                best = cur
+                break
+        hub[n] = best
     bad = None
+    for n, s in hub.items():
+        if s['rc'] != 0 or s['destroyed'] != n:
+            bad = 'hub of %d objects on a 128 KiB stack: rc=%s destroyed=%s' % (n, s['rc'], s['destroyed'])
+    if not bad and hub[40000]['ms'] and hub[80000]['ms'] and hub[80000]['ms'] > 3.2 * max(hub[40000]['ms'], 30):
+        bad = 'time is not linear: hub of 40000 objects %d ms, 80000 objects %d ms' % (hub[40000]['ms'], hub[80000]['ms'])
     for n, s in scale.items():
         if s['rc'] != 0 or s['destroyed'] != n:
             bad = 'ring of %d objects on a 128 KiB stack: rc=%s destroyed=%s' % (n, s['rc'], s['destroyed'])
@@ -879,7 +932,7 @@ def finish_C15(tier, seed, P, native, results, scratch):
         if v['clause'] != 'scale':
             # a growth measured by the solver-side exploration is confirmed by the native scale run
             v['confirmed_by'] = ('native scale run: ' + bad) if bad else None
-    return dict(violations=[v for v in viol], depth_table=table, native_scale=scale)
+    return dict(violations=[v for v in viol], depth_table=table, native_scale=scale, native_hub_scale=hub)
 
 
 PROPS['C15'] = dict(items=items_C15, finish=finish_C15,
